@@ -216,9 +216,16 @@ def evaluate_z3_re_range(
     if expr.decl().name() != "re.range":
         return Nothing
 
-    return Some(
-        construct_result(lambda args: f"[{args[0]}-{args[1]}]", children_results)
-    )
+    def constructor(args):
+        lower, upper = args
+        # SMT-LIB: the empty language unless both bounds are single characters
+        # in ascending order.
+        if len(lower) != 1 or len(upper) != 1 or lower > upper:
+            return "(?!)"
+
+        return f"[{re.escape(lower)}-{re.escape(upper)}]"
+
+    return Some(construct_result(constructor, children_results))
 
 
 def evaluate_z3_re_loop(
